@@ -209,6 +209,10 @@ func classifyPath(p, believedCwd string) string {
 		flags = append(flags, "unclean")
 	}
 
+	if len(p) > 1 && strings.HasSuffix(p, "/") {
+		flags = append(flags, "trailing-sep")
+	}
+
 	abs := p
 	if !strings.HasPrefix(p, "/") {
 		wd, werr := os.Getwd()
